@@ -18,8 +18,8 @@
 //        fixed32 = fixed_ndarray<T,3,2>, nested23, fixed23, hybrid = hybrid_ndarray<T,12,2> resized to oshape;
 //        for these `buf` lists the logical elements in C order.
 //   la=<kind> selects the storage kind of leaf a (C10_LEAF_KINDS bit mask: 1 row 2 col 4 nested 8 fixed 16 cshape
-//        32 hybrid 64 bounded 128 cbounded 256 dynfd); C10_REPORT_KIND appends ` kind=fixed|bounded|dynamic` (what the
-//        row-major resolver chose for the result) to comp answers.
+//        32 hybrid 64 bounded 128 cbounded 256 dynfd); with C10_REPORT_KIND a request carrying `kind=1` gets
+//        ` kind=fixed|bounded|dynamic` appended (what the row-major resolver chose for the result; evidence only).
 //   maybe a=<shape> to=<shape> : v = view::reshape(a, to) is nmtools_maybe<view>; answers has_value(v) / has_value(eval(v))
 //        and, when present, the comp answer of *v against *eval(v) — the maybe lifting of detail::eval itself.
 //   intofn fn=transpose_n|sum a=<shape> [axis=<k> keep=0|1] oshape=… olayout=row|col : the output handed to array::fn itself,
@@ -30,7 +30,7 @@
 #include "c10_ops.hpp"
 using namespace c10;
 
-template <typename X> static std::string finish_comp(const X& x) {
+template <typename X> static std::string finish_comp(const X& x, bool want_kind = false) {
     Obs B = observe(x);
     if (!B.err.empty()) return B.err;
     std::string col = "-";
@@ -59,7 +59,7 @@ template <typename X> static std::string finish_comp(const X& x) {
     }
     std::string kind;
 #ifdef C10_REPORT_KIND
-    if constexpr (meta::is_view_v<X> && !meta::is_num_v<X>) {
+    if constexpr (meta::is_view_v<X> && !meta::is_num_v<X>) if (want_kind) {
         using E = decltype(na::eval(x, nm::None, nm::None, na::RowMajorResolver));
         kind = meta::is_fixed_size_v<E> ? " kind=fixed" : meta::is_bounded_size_v<E> ? " kind=bounded" : " kind=dynamic";
     }
@@ -108,7 +108,7 @@ template <typename L> static std::string serve(const std::string& op, const Args
     uvec oshape; bool col = false; std::string olay = "row";
     if (op == "into") { oshape = nats(a, "oshape"); if (has(a, "olayout")) olay = get(a, "olayout"); col = olay == "col"; }
     auto fin = [&](const auto& x) -> std::string {
-        if (op == "comp") return finish_comp(x);
+        if (op == "comp") return finish_comp(x, has(a, "kind"));
 #ifndef C10_NO_INTO
 #ifdef C10_OUT_KINDS
         if (olay == "nested32") return into_with<nested32_t>(x, oshape);
